@@ -178,13 +178,19 @@ class C02(Check):
                 break
             tick += 1
         if violation is None:
-            # final sweep: one ABORT for every remaining tasker, in order, then nothing
-            for name in ready:
-                e = take_sends_until(name)
-                if e is None or e[3] != name or e[4] != ABORT:
-                    violation = ("sweep", "final sweep: expected ABORT to %s, observed %r" % (name, e))
+            # final sweep: one ABORT for every remaining tasker, then nothing.  The order in which the remaining taskers
+            # are aborted is not fixed by any statement (C02 orders the runs within a tick, C03 asks for exactly one
+            # abort each), so the sweep is compared as a set; the digest uses the sorted names.
+            left = set(ready)
+            swept = []
+            while left:
+                e = take_sends_until(None)
+                if e is None or e[3] not in left or e[4] != ABORT:
+                    violation = ("sweep", "final sweep: expected one ABORT to each of %s, observed %r" % (sorted(left), e))
                     break
-                sends_seen.append(("sweep", name, e[4], e[5]))
+                left.discard(e[3])
+                swept.append(("sweep", e[3], e[4], e[5]))
+            sends_seen.extend(sorted(swept))
             if violation is None:
                 rest = [e for e in events[i:] if e[2] == "sent"]
                 if rest:
